@@ -1221,6 +1221,11 @@ func TestCheck(t *testing.T) {
 		}
 		runPlan(t, idx, pl)
 		flushTally()
+		if tooManyViolations() {
+			// the verdict is settled; a mutant that fails every history would otherwise take the whole budget
+			rec.Observe(fmt.Sprintf("run stopped at case %d after more than %d violations", idx, violationCap))
+			break
+		}
 	}
 }
 
@@ -1237,6 +1242,10 @@ func setProcs(n int) {
 	}
 }
 
+const violationCap = 400
+
+func tooManyViolations() bool { return rec.Violations() > violationCap }
+
 func runPlan(t *testing.T, idx int, pl plan) {
 	switch pl.mode {
 	case "burst", "racing":
@@ -1249,6 +1258,9 @@ func runPlan(t *testing.T, idx int, pl plan) {
 		rec.Begin(idx, pl.String())
 		var non, triv int64
 		visit := func(seq []op) {
+			if tooManyViolations() {
+				return
+			}
 			rec.Step(seqString(seq))
 			out := runHistory(t, idx, pl.mode, pl.cfg, seq, runOpts{hook: pl.hook, k: pl.k, m: pl.m, lockstep: true})
 			switch {
